@@ -52,7 +52,7 @@ impl Scheduler {
     /// Schedules an action at a future time.
     ///
     /// An error is returned if the specified time is not in the future of the
-    /// current simulation time.
+    /// current simulation time or if the action is periodic with a null period.
     ///
     /// If multiple actions send events at the same simulation time to the same
     /// model, these events are guaranteed to be processed according to the
@@ -372,6 +372,15 @@ impl GlobalScheduler {
         // 2) the `Simulation` object takes the lock, increments simulation time
         //    and runs the simulation step,
         // 3) this method takes the lock and schedules the now-outdated action.
+
+        // A pre-built periodic action with a null period would be re-scheduled
+        // forever at the same simulation time.
+        if let Some((_, period)) = action.next() {
+            if period.is_zero() {
+                return Err(SchedulingError::NullRepetitionPeriod);
+            }
+        }
+
         let mut scheduler_queue = self.scheduler_queue.lock().unwrap();
 
         let now = self.time();
